@@ -182,6 +182,17 @@ def gen_random_lines(f, rng, count):
     return count
 
 
+def gen_very_long(f, rng, count):
+    """lines longer than 65535 bytes: tokens and the first unmatchable byte at columns that do not fit 16 bits"""
+    n = 0
+    for N in [65530, 65533, 65534, 65535, 65536, 65537, 70000][:count]:
+        for line in ('"' + "a" * N + '" $', " " * N + "x $", "x" + " " * N + "1.2.3.4:5 0x1f $ y", "let" + "\t" * N + "v = é$",
+                     '"' + "é" * (N // 2) + '" ipv4::x ('):
+            f.write(enc(line) + " " + FLUSH + "\n")
+            n += 1
+    return n
+
+
 def gen_random_alphabet(f, rng, count):
     for _ in range(count):
         k = rng.randint(5, 10)
@@ -301,6 +312,8 @@ def _shard(job):
             n = gen_random_lines(f, rng, arg)
         elif kind == "random-alphabet":
             n = gen_random_alphabet(f, rng, arg)
+        elif kind == "very-long":
+            n = gen_very_long(f, rng, arg)
         elif kind == "multiline":
             n = gen_multiline(f, rng, arg)
         else:
@@ -438,6 +451,7 @@ def run(ctx):
         add("random-alphabet", 25000)
     for i in range(8 * scale):
         add("multiline", 8000)
+    add("very-long", 7 if ctx.thorough else 4, cover=False)
     if ctx.thorough:
         # all strings of length exactly 5, fresh lexer only; model coverage is taken from the other generators
         n5 = 400
